@@ -147,6 +147,15 @@ func ruleChildVisit(p *Prog, r *Result) {
 						continue
 					}
 				}
+				if isSliceField(t, f) {
+					// every element is visited: the receivers are elements of the whole list, not of a
+					// sub-slice or a loop starting after the first element (unless the skipped
+					// elements are visited individually)
+					if why := p.sliceCoverage(calls, t.Obj().Name(), f); why != "" {
+						r.hit(key, p.InstrPos(calls[0]), why)
+						continue
+					}
+				}
 				r.ok(key, p.InstrPos(calls[0]), fmt.Sprintf("%d invoke(s) of %s on %s", len(calls), m, f))
 			}
 		}
@@ -544,4 +553,71 @@ func isSliceField(t *types.Named, field string) bool {
 		}
 	}
 	return false
+}
+
+// sliceCoverage decides whether the invocations together visit every element of the list
+// field: an invocation on list[i] for a loop index starting at k over list[l:] covers
+// [k+l, inf); an invocation on a constant index covers that index. Returns "" when all
+// indices from 0 are covered.
+func (p *Prog) sliceCoverage(calls []*ssa.Call, owner, field string) string {
+	from := int64(-1) // smallest start of an open-ended cover
+	single := map[int64]bool{}
+	for _, c := range calls {
+		start := int64(0)
+		bounded := false
+		isSingle := false
+		var singleIdx int64
+		p.traceBack(c.Call.Value, traceOpts{IntoReturns: true, ThroughArgs: true}, func(x ssa.Value) bool {
+			switch y := x.(type) {
+			case *ssa.Slice:
+				if _, isSl := y.X.Type().Underlying().(*types.Slice); isSl {
+					if y.Low != nil {
+						if k, ok := constInt(y.Low); ok {
+							start += k
+						} else {
+							bounded = true
+						}
+					}
+					if y.High != nil {
+						bounded = true
+					}
+				}
+			case *ssa.IndexAddr:
+				if k, ok := constInt(y.Index); ok {
+					isSingle, singleIdx = true, k
+				} else if ph, ok := y.Index.(*ssa.Phi); ok {
+					// loop index: its value on entry to the loop
+					for _, e := range ph.Edges {
+						if k, ok := constInt(e); ok && k > 0 {
+							start += k
+						}
+					}
+				}
+			case *ssa.Index:
+				if k, ok := constInt(y.Index); ok {
+					isSingle, singleIdx = true, k
+				}
+			}
+			return true
+		})
+		switch {
+		case isSingle:
+			single[singleIdx+start] = true
+		case bounded:
+			// a window with a computed bound covers nothing for sure
+		default:
+			if from < 0 || start < from {
+				from = start
+			}
+		}
+	}
+	if from < 0 {
+		return fmt.Sprintf("no invocation ranges over the whole list %s.%s", owner, field)
+	}
+	for i := int64(0); i < from; i++ {
+		if !single[i] {
+			return fmt.Sprintf("element %d of %s.%s is never visited (the loop starts at element %d): a fault in that position is not seen", i, owner, field, from)
+		}
+	}
+	return ""
 }
